@@ -14,9 +14,64 @@ func (f *Frame) chargeAlloc(count string, elem types.Type, pos string) {
 }
 
 func (f *Frame) chargeAllocCond(cond, count string, elem types.Type, pos string) {
-	if f.s.allocHook != nil {
-		f.s.allocHook(f, cond, count, elem, pos)
+	s := f.s
+	if !s.trackAlloc {
+		return
 	}
+	size := sizeOf(elem)
+	cur := s.hget(f.cur.heap, "$bytes", "Int")
+	add := app("*", num(size), count)
+	n := s.freshConst("bytes", "Int")
+	s.fact(eq(n, app("+", cur, ite(cond, ite(app(">", count, "0"), add, "0"), "0"))))
+	f.cur.heap["$bytes"] = n
+	s.sorts["$bytes"] = "Int"
+}
+
+// chargeBytes adds a fixed or symbolic number of bytes to the ghost allocation counter.
+func (f *Frame) chargeBytes(n string) {
+	s := f.s
+	if !s.trackAlloc {
+		return
+	}
+	cur := s.hget(f.cur.heap, "$bytes", "Int")
+	c := s.freshConst("bytes", "Int")
+	s.fact(eq(c, app("+", cur, n)))
+	f.cur.heap["$bytes"] = c
+	s.sorts["$bytes"] = "Int"
+}
+
+// sizeOf: bytes per element as the Go runtime lays them out on 64-bit platforms (interfaces, strings: 16; slices: 24).
+func sizeOf(t types.Type) int64 {
+	switch u := t.Underlying().(type) {
+	case *types.Basic:
+		switch u.Kind() {
+		case types.Bool, types.Int8, types.Uint8:
+			return 1
+		case types.Int16, types.Uint16:
+			return 2
+		case types.Int32, types.Uint32, types.Float32:
+			return 4
+		case types.String:
+			return 16
+		}
+		return 8
+	case *types.Interface:
+		return 16
+	case *types.Slice:
+		return 24
+	case *types.Array:
+		return u.Len() * sizeOf(u.Elem())
+	case *types.Struct:
+		var n int64
+		for i := 0; i < u.NumFields(); i++ {
+			n += sizeOf(u.Field(i).Type())
+		}
+		if n == 0 {
+			n = 1
+		}
+		return n
+	}
+	return 8
 }
 
 // bounded views: slices that must not be read beyond len even where Go only checks cap
